@@ -215,7 +215,7 @@ package vegeta
 // Metrics.Add: every aggregate is one fold step of its documented definition; `wf-*` is the
 // representation invariant of Metrics (established by the zero value, kept by Add and Close).
 //@ func (*Metrics).Add
-//@   property C10
+//@   property C10 C12
 //@   requires [non-nil] m != nil && r != nil
 //@   requires [wf-first] (m.Latencies.estimator == nil) == (m.Requests == 0)
 //@   requires [wf-earliest] (m.Requests == 0 ==> m.Earliest == zeroTime && m.Latest == zeroTime && m.End == zeroTime) && (m.Requests > 0 ==> m.Earliest > zeroTime)
@@ -250,6 +250,7 @@ package vegeta
 //@   ensures [error-list] len(m.Errors) == old(len(m.Errors)) + (r.Error != "" && !old(has(m.errors, r.Error)) ? 1 : 0)
 //@              && (forall i int :: 0 <= i && i < old(len(m.Errors)) ==> m.Errors[i] == old(m.Errors[i]))
 //@              && (len(m.Errors) > old(len(m.Errors)) ==> m.Errors[len(m.Errors)-1] == r.Error)
+//@   ensures [histogram-counts-every-result] m.Histogram == old(m.Histogram) && (m.Histogram != nil ==> m.Histogram.Total == old(m.Histogram.Total) + 1 && len(m.Histogram.Counts) == len(m.Histogram.Buckets))
 //@   ensures [wf-first] (m.Latencies.estimator == nil) == (m.Requests == 0)
 //@   ensures [wf-earliest] m.Earliest > zeroTime
 //@   ensures [wf-codes] forall k string :: 0 <= m.StatusCodes[k] && m.StatusCodes[k] <= m.Requests
@@ -707,6 +708,22 @@ package vegeta
 //@        assert [context-and-network-forwarded] arg0 == ctx && arg1 == network
 //@   ensures [counter-advances-by-one] has(connectTo, addr) ==> connectTo[addr].n == old(connectTo[addr].n) + 1
 //@   ensures [map-untouched] forall k string :: has(connectTo, k) == old(has(connectTo, k)) && connectTo[k] == old(connectTo[k])
+
+// DNSCaching refresher goroutine (C02 "no goroutine of the attack is left behind"): it waits for the
+// ticker only inside a select that a Stop can wake, and returns only after - and as soon as - it has
+// received the stop signal. (Safety proxy of the liveness claim: no blocking wait that Stop cannot end.)
+//@ func DNSCaching$1$1
+//@   property C02
+//@   pragma frame off
+//@   requires [captured-set] a != nil && a.stopch != nil && resolver != nil && ttl > 0
+//@   ghost insel bool = false
+//@   ghost stopped bool = false
+//@   at select-blocking: ghost insel = true
+//@   at recv C: assert [waits-for-the-ticker-only-where-stop-can-wake-it] insel ; ghost insel = false
+//@   at recv stopch: assert [stop-is-awaited-in-the-same-select] insel ; ghost stopped = true ; ghost insel = false
+//@   ensures [returns-only-on-stop] stopped
+//@   loop 1
+//@     invariant !stopped && !insel && a == old(a) && a.stopch == old(a.stopch) && resolver == old(resolver) && refresh != nil
 
 // DNSCaching dial function. The addresses returned by the cache are owned by the cache: `modifies`
 // does not include them, so any write to that slice (shuffling or compacting it in place) fails a
